@@ -1,22 +1,20 @@
 CONSTANTS
   Names = {1, 2, 3}
-  Start <- StartG2
+  Start <- StartF
   MaxParas = 3
   EditFields = TRUE
   SetVals = {101, 102, 103}
-  SetSpells = {"L"}
-  Ops = {"set", "del"}
-  Emit = TRUE
+  SetSpells = {"U", "L"}
+  Ops = {"get", "set", "del"}
+  Emit = FALSE
 SPECIFICATION Spec
 INVARIANT NoEmptyPara
 INVARIANT ParasSeparated
 INVARIANT NoDupStaysUnique
 INVARIANT NoBlobDuplication
-INVARIANT ReplaceLaws
-INVARIANT DocWellFormed
+INVARIANT NegReplaceLaws
 PROPERTY ErrAtomic
 PROPERTY CommentsStay
 PROPERTY SepsKept
-PROPERTY NlOnlySupplied
 VIEW DocView
 CHECK_DEADLOCK FALSE
